@@ -84,7 +84,11 @@ class PartHandler(PartFlowController):
         self._next_cycle_time_offset += offset
 
     def notify_upstream_of_available_space(self):
-        self._set_waiting_for_part(True)
+        # The waiting-for-part time only starts when a Part could
+        # actually be accepted: unblocking the input of a device that is
+        # still busy must not make it look idle.
+        if self._part == None and self._output == None:
+            self._set_waiting_for_part(True)
         super().notify_upstream_of_available_space()
 
     def space_available_downstream(self):
